@@ -1003,8 +1003,9 @@ namespace link_layer {
         {
             force_disconnect( connection_ll_response_timeout );
         }
-        else if ( time_since_last_event < connection_timeout_
-            && !( state_ == state::connecting && time_since_last_event >= ( num_windows_til_timeout - 1 ) * connection_interval_ ) )
+        else if ( state_ == state::connecting
+            ? time_since_last_event < ( num_windows_til_timeout - 1 ) * connection_interval_
+            : time_since_last_event < connection_timeout_ )
         {
             this->plan_next_connection_event_after_timeout( connection_interval_ );
 
